@@ -180,6 +180,8 @@ class Parser:
             t = self.parse_type()
             if t == 'slice' and m:
                 return 'mutslice'           # `&mut [u64]`: returned (updated) next to the function's own result
+            if m and isinstance(t, tuple) and t and t[0] == 'generic' and t[1] == 'Vec' and len(t[2]) == 1:
+                return 'mutslice'           # `&mut Vec<T>`: the vector's contents, returned (updated) like a `&mut [u64]`
             if t == 'str':
                 return 'slice'              # `&str`: the sequence of its characters (code points)
             if m and isinstance(t, str) and (t in WIDTH or t == 'bool'):
@@ -1860,7 +1862,7 @@ class Emitter:
                 for n in self.target_roots(s[1]):
                     if n and n not in local and n not in out:
                         out.append(n)
-            if s[0] == 'expr' and s[1][0] == 'mcall' and s[1][2] in ('fill', 'copy_from_slice', 'copy_within', 'push', 'pop'):
+            if s[0] == 'expr' and s[1][0] == 'mcall' and s[1][2] in ('fill', 'copy_from_slice', 'copy_within', 'push', 'pop', 'truncate'):
                 for n in self.target_roots(s[1][1]):
                     if n and n not in local and n not in out:
                         out.append(n)
@@ -2733,6 +2735,13 @@ class Emitter:
                 line = 'let %s := (%s).dropLast\n  ' % (n_, n_)
             body, tb = self.stmts(rest, env, exp, result)
             return line + body, tb
+        if k == 'expr' and s[1][0] == 'mcall' and s[1][2] == 'truncate' and len(s[1][3]) == 1 and s[1][1][0] == 'path' \
+                and len(s[1][1][1]) == 1 and env.get(s[1][1][1][0]) in ('slice', 'mutslice'):
+            # `v.truncate(n);` on a `Vec`: keeps the first n elements (no effect when n >= len) = List.take
+            n_ = lean_ident(s[1][1][1][0])
+            sx, _ = self.expr(s[1][3][0], env, 'usize')
+            body, tb = self.stmts(rest, env, exp, result)
+            return 'let %s := (%s).take %s\n  ' % (n_, n_, sx) + body, tb
         if k == 'expr' and s[1][0] == 'mcall' and s[1][2] in ('fill', 'copy_from_slice', 'copy_within') \
                 and self.slice_place(s[1][1], env):
             # whole-slice updates of a `&mut [u64]` (or of a sub-slice of one)
